@@ -154,6 +154,10 @@ class MemoryStore(Store):
 
 class LocalFileStore(Store):
     def __init__(self, internal_dir: str, data_dir: str, create_dirs: bool = True):
+        # Resolved once: the links in the data directory must point to absolute locations, and
+        # the store must keep working when the working directory of the process changes.
+        internal_dir = os.path.abspath(internal_dir)
+        data_dir = os.path.abspath(data_dir)
         self._root = internal_dir
         self._data_root = data_dir
         if not os.path.isdir(internal_dir):
